@@ -4,7 +4,7 @@
    g_fixed cfg = false is the pinned snapshot, kept for the refutation witnesses. *)
 From Coq Require Import NArith List Bool.
 From ZV.Codec Require Import Bytes Block.
-From ZV.Seq Require Import SeqApi SeqSpec SeqProofs SeqTranscribe.
+From ZV.Seq Require Import SeqApi SeqSpec SeqProofs SeqTranscribe SeqMinLen SeqExec SeqProducer.
 Import ListNotations.
 Local Open Scope N_scope.
 
@@ -28,6 +28,23 @@ Theorem C17_transcription_preserves_content_explicit : forall byte D E cfg ers b
   blocks_valid byte D 0 blks E.
 Proof. exact transcription_preserves_content_explicit. Qed.
 Print Assumptions C17_transcription_preserves_content_explicit.
+
+(* the minMatch adjustment: every piece stored in any block is at least minMatch long when the list's matches are, the list
+   does not overrun the source and a full block holds two minimal matches ("keeps both halves >= minMatch or moves the edge") *)
+Theorem C17_split_halves_at_least_minmatch : forall cfg ers bsMax srcSize S rep dec blks,
+  1 <= g_minMatch cfg -> 2 * g_minMatch cfg <= bsMax + 1 -> bsMax < M32 -> srcSize < M32 ->
+  seq_min (g_minMatch cfg) S -> total_len S <= srcSize ->
+  compress_sequences cfg false ers bsMax srcSize S rep dec = Done blks ->
+  Forall (fun b => stored_minlen (g_minMatch cfg) (b_seqs b)) blks.
+Proof. exact split_halves_at_least_minmatch. Qed.
+Print Assumptions C17_split_halves_at_least_minmatch.
+
+(* LZ semantics: executing a valid parse (naive decoder exec_parse) over the literals of the source gives back the source *)
+Theorem C17_lz_exec_valid_parse : forall dict x S,
+  valid_parse_global dict x S ->
+  let '(out, rest) := exec_parse S dict (literals_of S x 0) in out ++ rest = dict ++ x.
+Proof. exact lz_exec_valid_parse. Qed.
+Print Assumptions C17_lz_exec_valid_parse.
 
 (* ---- repcodes: ZSTD_finalizeOffBase + ZSTD_updateRep stay in lock-step with the decoder's rule (resolve_offset of R) ---- *)
 Theorem C17_offbase_finalisation_lockstep_one : forall raw ll rep,
@@ -118,6 +135,24 @@ Theorem C17_producer_fallback : forall cfg ers fallback buf nb capacity srcSize 
      post_process buf nb capacity srcSize = PPfail).
 Proof. exact producer_fallback. Qed.
 Print Assumptions C17_producer_fallback.
+
+(* an accepted producer answer: codes decode to the raw offsets, lengths fill the block, rule holds under validation *)
+Theorem C17_producer_store_sound : forall cfg ers fallback buf nb capacity srcSize rep br,
+  producer_block cfg ers fallback buf nb capacity srcSize rep = PRstore br ->
+  (forall seqs, post_process buf nb capacity srcSize = PPok seqs -> Forall off_ok seqs) -> rep_ok rep ->
+  decode_offsets rep (r_seqs br) = Ok (map t_raw (r_seqs br), r_rep br) /\
+  stored_sum32 (r_seqs br) + r_lastLL br = srcSize /\
+  (g_fixed cfg = true -> g_validate cfg = true -> srcSize < M32 -> stored_rule cfg 0 (r_seqs br)).
+Proof. exact producer_store_sound. Qed.
+Print Assumptions C17_producer_store_sound.
+
+(* whatever the producer returned (count within the buffer, or an error count): no out-of-bounds access in the copier *)
+Theorem C17_producer_block_memory_safe : forall cfg ers fallback buf nb capacity srcSize rep,
+  g_fixed cfg = true -> g_validate cfg = true -> g_wlog cfg <= 31 -> srcSize + g_dict cfg + 3 < M32 ->
+  (N.to_nat nb <= length buf)%nat \/ capacity < nb ->
+  forall site, producer_block cfg ers fallback buf nb capacity srcSize rep <> PRoob site.
+Proof. exact producer_block_memory_safe. Qed.
+Print Assumptions C17_producer_block_memory_safe.
 
 (* ---- refutation witnesses on the snapshot variant (each replayed on the real code by the check) ---- *)
 Theorem C17_validation_offset_refuted :
